@@ -5,6 +5,7 @@
 #include "ma-filter.h"   // lib/ma-filter.h (internal header; the moving-average filter of property C06)
 
 #include <memory>
+#include <type_traits>
 
 namespace vf {
 
@@ -70,6 +71,14 @@ struct Proc {
     virtual std::unique_ptr<Proc> clone() const {
         return nullptr;
     }
+    // a new processor that took over the state of this one by MOVE construction (this one must not be used afterwards)
+    virtual std::unique_ptr<Proc> move_clone() {
+        return nullptr;
+    }
+    // copy ASSIGNMENT of `o` (same adapter type) over this object; false: the class is not copy-assignable
+    virtual bool assign_from(const Proc&) {
+        return false;
+    }
     // true: a copy is an independent object (value semantics); false: the library documents / implements the class as a
     // handle whose copies share one state (Agc, FIRResampler): only "continue with the copy, drop the original" is meaningful
     bool value_copy{true};
@@ -81,6 +90,16 @@ struct Proc {
 };
 
 namespace detail {
+
+template<class X>
+bool assign_impl(X& dst, const Proc& o) {
+    if constexpr (std::is_copy_assignable_v<X>) {
+        dst = static_cast<const X&>(o);
+        return true;
+    } else {
+        return false;
+    }
+}
 
 inline arr_real positive_h(uint32_t seed, int n) {
     arr_real h = rand_coeffs(seed, n);
@@ -100,6 +119,12 @@ struct FirP : Proc {
     }
     std::unique_ptr<Proc> clone() const override {
         return std::make_unique<FirP<T>>(*this);
+    }
+    std::unique_ptr<Proc> move_clone() override {
+        return std::make_unique<FirP<T>>(std::move(*this));
+    }
+    bool assign_from(const Proc& o) override {
+        return detail::assign_impl(*this, o);
     }
     void call(const double* in, int n, std::vector<std::vector<double>>& ch) override {
         if constexpr (std::is_same_v<T, cmplx_t>) {
@@ -121,6 +146,12 @@ struct FftFirP : Proc {
     }
     std::unique_ptr<Proc> clone() const override {
         return std::make_unique<FftFirP<T>>(*this);
+    }
+    std::unique_ptr<Proc> move_clone() override {
+        return std::make_unique<FftFirP<T>>(std::move(*this));
+    }
+    bool assign_from(const Proc& o) override {
+        return detail::assign_impl(*this, o);
     }
     void call(const double* in, int n, std::vector<std::vector<double>>& ch) override {
         if constexpr (std::is_same_v<T, cmplx_t>) {
@@ -148,6 +179,12 @@ struct FftFirMixedP : Proc {
     std::unique_ptr<Proc> clone() const override {
         return std::make_unique<FftFirMixedP>(*this);
     }
+    std::unique_ptr<Proc> move_clone() override {
+        return std::make_unique<FftFirMixedP>(std::move(*this));
+    }
+    bool assign_from(const Proc& o) override {
+        return detail::assign_impl(*this, o);
+    }
     void call(const double* in, int n, std::vector<std::vector<double>>& ch) override {
         if (real_in) {
             append(ch[0], f.process(to_arr(in, size_t(n))));
@@ -171,6 +208,12 @@ struct ResampP : Proc {
     }
     std::unique_ptr<Proc> clone() const override {
         return std::make_unique<ResampP<C>>(*this);
+    }
+    std::unique_ptr<Proc> move_clone() override {
+        return std::make_unique<ResampP<C>>(std::move(*this));
+    }
+    bool assign_from(const Proc& o) override {
+        return detail::assign_impl(*this, o);
     }
     void call(const double* in, int n, std::vector<std::vector<double>>& ch) override {
         append(ch[0], r.process(to_arr(in, size_t(n))));
@@ -204,6 +247,12 @@ struct DelayP : Proc {
     std::unique_ptr<Proc> clone() const override {
         return std::make_unique<DelayP<T>>(*this);
     }
+    std::unique_ptr<Proc> move_clone() override {
+        return std::make_unique<DelayP<T>>(std::move(*this));
+    }
+    bool assign_from(const Proc& o) override {
+        return detail::assign_impl(*this, o);
+    }
     void call(const double* in, int n, std::vector<std::vector<double>>& ch) override {
         if constexpr (std::is_same_v<T, cmplx_t>) {
             append(ch[0], d.process(to_carr(in, size_t(n))));
@@ -222,6 +271,12 @@ struct MedianP : Proc {
     std::unique_ptr<Proc> clone() const override {
         return std::make_unique<MedianP>(*this);
     }
+    std::unique_ptr<Proc> move_clone() override {
+        return std::make_unique<MedianP>(std::move(*this));
+    }
+    bool assign_from(const Proc& o) override {
+        return detail::assign_impl(*this, o);
+    }
     void call(const double* in, int n, std::vector<std::vector<double>>& ch) override {
         append(ch[0], f.process(to_arr(in, size_t(n))));
     }
@@ -238,6 +293,12 @@ struct MaP : Proc {
     }
     std::unique_ptr<Proc> clone() const override {
         return std::make_unique<MaP<T>>(*this);
+    }
+    std::unique_ptr<Proc> move_clone() override {
+        return std::make_unique<MaP<T>>(std::move(*this));
+    }
+    bool assign_from(const Proc& o) override {
+        return detail::assign_impl(*this, o);
     }
     void call(const double* in, int n, std::vector<std::vector<double>>& ch) override {
         if constexpr (std::is_same_v<T, cmplx_t>) {
@@ -258,6 +319,12 @@ struct HilbertP : Proc {
     std::unique_ptr<Proc> clone() const override {
         return std::make_unique<HilbertP>(*this);
     }
+    std::unique_ptr<Proc> move_clone() override {
+        return std::make_unique<HilbertP>(std::move(*this));
+    }
+    bool assign_from(const Proc& o) override {
+        return detail::assign_impl(*this, o);
+    }
     void call(const double* in, int n, std::vector<std::vector<double>>& ch) override {
         append(ch[0], f.process(to_arr(in, size_t(n))));
     }
@@ -273,6 +340,12 @@ struct TunerP : Proc {
     }
     std::unique_ptr<Proc> clone() const override {
         return std::make_unique<TunerP>(*this);
+    }
+    std::unique_ptr<Proc> move_clone() override {
+        return std::make_unique<TunerP>(std::move(*this));
+    }
+    bool assign_from(const Proc& o) override {
+        return detail::assign_impl(*this, o);
     }
     void call(const double* in, int n, std::vector<std::vector<double>>& ch) override {
         append(ch[0], t.process(to_carr(in, size_t(n))));
@@ -292,6 +365,12 @@ struct AgcP : Proc {
     }
     std::unique_ptr<Proc> clone() const override {
         return std::make_unique<AgcP<T>>(*this);
+    }
+    std::unique_ptr<Proc> move_clone() override {
+        return std::make_unique<AgcP<T>>(std::move(*this));
+    }
+    bool assign_from(const Proc& o) override {
+        return detail::assign_impl(*this, o);
     }
     void call(const double* in, int n, std::vector<std::vector<double>>& ch) override {
         if constexpr (std::is_same_v<T, cmplx_t>) {
@@ -318,6 +397,12 @@ struct DynP : Proc {
     std::unique_ptr<Proc> clone() const override {
         return std::make_unique<DynP<D>>(*this);
     }
+    std::unique_ptr<Proc> move_clone() override {
+        return std::make_unique<DynP<D>>(std::move(*this));
+    }
+    bool assign_from(const Proc& o) override {
+        return detail::assign_impl(*this, o);
+    }
     void call(const double* in, int n, std::vector<std::vector<double>>& ch) override {
         auto r = d.process(to_arr(in, size_t(n)));
         append(ch[0], r.out);
@@ -339,6 +424,12 @@ struct AdaptP : Proc {
     }
     std::unique_ptr<Proc> clone() const override {
         return std::make_unique<AdaptP<F, T>>(*this);
+    }
+    std::unique_ptr<Proc> move_clone() override {
+        return std::make_unique<AdaptP<F, T>>(std::move(*this));
+    }
+    bool assign_from(const Proc& o) override {
+        return detail::assign_impl(*this, o);
     }
     void call(const double* in, int n, std::vector<std::vector<double>>& ch) override {
         dsplib::base_array<T> x(n);
